@@ -213,6 +213,10 @@ func BuildTx(kr *Keyring, s TxSpec, prior Prior) (f TxFacts) {
 	case s.Mut == "memo":
 		tx.Memo = tx.Memo + "x"
 		honest = false
+	case s.Mut == "memosp":
+		// only white space is added to the signed note (before it if there is a note, alone otherwise)
+		tx.Memo = " " + tx.Memo + "\t"
+		honest = false
 	case s.Mut == "entropy":
 		tx.Entropy++
 		honest = false
